@@ -84,6 +84,23 @@ fn nop_graph(address: u64) -> Result<ControlFlowGraph, Error> {
     Ok(cfg)
 }
 
+// A linking branch writes its link register and evaluates its condition
+// before the delay slot executes. We create a graph which does this (see the
+// `*_prologue` functions of `semantics`), and execute it prior to the delay
+// slot, at the address of the branch.
+fn prologue_graph(
+    instruction: &capstone::Instr,
+    prologue: fn(&mut ControlFlowGraph, &capstone::Instr) -> Result<(), Error>,
+) -> Result<ControlFlowGraph, Error> {
+    let mut cfg = ControlFlowGraph::new();
+
+    prologue(&mut cfg, instruction)?;
+
+    cfg.set_address(Some(instruction.address));
+
+    Ok(cfg)
+}
+
 // If a branch has a delay slot, we need to calculate the condition for the
 // branch before we execute the delay slow. We create a graph which sets a
 // scalar "branching" condition, and execute this prior to the delay slot.
@@ -644,12 +661,34 @@ fn translate_block(
                     successors.push((operand.imm() as u64, None));
                     branch_delay = TranslateBranchDelay::Branch;
                 }
-                capstone::mips_insn::MIPS_INS_BAL
-                | capstone::mips_insn::MIPS_INS_BGEZAL
-                | capstone::mips_insn::MIPS_INS_BLTZAL
-                | capstone::mips_insn::MIPS_INS_JAL
-                | capstone::mips_insn::MIPS_INS_JALR => {
-                    block_graphs.push((instruction.address, nop_graph(instruction.address)?));
+                // The link register is written, and the condition is
+                // evaluated, before the delay slot executes.
+                capstone::mips_insn::MIPS_INS_BAL | capstone::mips_insn::MIPS_INS_JAL => {
+                    block_graphs.push((
+                        instruction.address,
+                        prologue_graph(&instruction, semantics::link_prologue)?,
+                    ));
+                    branch_delay = TranslateBranchDelay::BranchFallThrough;
+                }
+                capstone::mips_insn::MIPS_INS_BGEZAL => {
+                    block_graphs.push((
+                        instruction.address,
+                        prologue_graph(&instruction, semantics::bgezal_prologue)?,
+                    ));
+                    branch_delay = TranslateBranchDelay::BranchFallThrough;
+                }
+                capstone::mips_insn::MIPS_INS_BLTZAL => {
+                    block_graphs.push((
+                        instruction.address,
+                        prologue_graph(&instruction, semantics::bltzal_prologue)?,
+                    ));
+                    branch_delay = TranslateBranchDelay::BranchFallThrough;
+                }
+                capstone::mips_insn::MIPS_INS_JALR => {
+                    block_graphs.push((
+                        instruction.address,
+                        prologue_graph(&instruction, semantics::jalr_prologue)?,
+                    ));
                     branch_delay = TranslateBranchDelay::BranchFallThrough;
                 }
                 capstone::mips_insn::MIPS_INS_JR => {
